@@ -20,6 +20,9 @@ import (
 	"math/big"
 	"sync"
 	"time"
+
+	"golang.org/x/crypto/cryptobyte"
+	cbasn1 "golang.org/x/crypto/cryptobyte/asn1"
 )
 
 // Object identifiers of RFC 6962.
@@ -55,7 +58,10 @@ type Opts struct {
 	SKID      []byte
 	DNS       []string
 	NoAKID    bool
-	KeyUsage  x509.KeyUsage // 0 = certSign|cRLSign for CAs, digitalSignature otherwise
+	// FullAKID issues the certificate with an authority key identifier that carries, besides the key
+	// identifier, the authority\'s issuer name and serial number (OpenSSL\'s keyid,issuer:always form).
+	FullAKID bool
+	KeyUsage x509.KeyUsage // 0 = certSign|cRLSign for CAs, digitalSignature otherwise
 }
 
 var (
@@ -188,6 +194,9 @@ func (p *Node) Issue(o Opts) *Node {
 		key = NewKey(o.KeyType)
 	}
 	t := template(o)
+	if o.FullAKID {
+		t.ExtraExtensions = append(t.ExtraExtensions, pkix.Extension{Id: asn1.ObjectIdentifier{2, 5, 29, 35}, Value: fullAKID(p)})
+	}
 	parent := p.Cert
 	if o.NoAKID {
 		cp := *p.Cert
@@ -278,3 +287,16 @@ func KeyPEM(k crypto.Signer) []byte {
 
 // OIDEKUCTs is the CT precertificate-signing EKU as a list.
 func OIDEKUCTs() []asn1.ObjectIdentifier { return []asn1.ObjectIdentifier{OIDEKUCT} }
+
+// fullAKID encodes AuthorityKeyIdentifier ::= SEQUENCE { [0] keyIdentifier, [1] authorityCertIssuer, [2] authorityCertSerialNumber }.
+func fullAKID(authority *Node) []byte {
+	var b cryptobyte.Builder
+	b.AddASN1(cbasn1.SEQUENCE, func(b *cryptobyte.Builder) {
+		b.AddASN1(cbasn1.Tag(0).ContextSpecific(), func(b *cryptobyte.Builder) { b.AddBytes(authority.Cert.SubjectKeyId) })
+		b.AddASN1(cbasn1.Tag(1).ContextSpecific().Constructed(), func(b *cryptobyte.Builder) {
+			b.AddASN1(cbasn1.Tag(4).ContextSpecific().Constructed(), func(b *cryptobyte.Builder) { b.AddBytes(authority.Cert.RawIssuer) })
+		})
+		b.AddASN1(cbasn1.Tag(2).ContextSpecific(), func(b *cryptobyte.Builder) { b.AddBytes(authority.Cert.SerialNumber.Bytes()) })
+	})
+	return b.BytesOrPanic()
+}
